@@ -774,6 +774,7 @@ def correspond(ctx):
                 ctx.count(('X', smi))
                 ctx.dist('X:judged')
                 report(ctx, 'X', tag, smi, x)
+    exhaustive(ctx, s_env, s_to, s_from)
     edge_from(ctx, s_edge)
     for s in (s_env, s_to, s_from, s_rt, s_edge):
         s.run()
@@ -783,6 +784,189 @@ def correspond(ctx):
     if _state.get('c01gap'):
         ctx.notes.append(f"{len(_state['c01gap'])} canonical-string differences with identical attributes/bonds/configuration under "
                          f"the position map (numbering dependence of the writer, C01 gap; not counted): e.g. {_state['c01gap'][0]}")
+
+
+# ------------------------------------------------------------------------------------------------
+# exhaustive finite domain: one centre / one double bond x every neighbour insertion order x every label
+# ------------------------------------------------------------------------------------------------
+
+HAL = ['F', 'Cl', 'Br', 'I']
+
+
+def build(atoms, bonds, hcount=None):
+    """molecule through the public API: `atoms` = [(number, symbol)] in insertion order, `bonds` = [(n, m, order)] in insertion order."""
+    from chython import MoleculeContainer
+    from chython.periodictable import Element
+    m = MoleculeContainer()
+    for n, sym in atoms:
+        m.add_atom(Element.from_symbol(sym)(), n, _skip_calculation=True)
+    for a, b, o in bonds:
+        m.add_bond(a, b, o, _skip_calculation=True)
+    m.fix_structure()
+    return m
+
+
+def tetra_templates(ctx):
+    """(tag, molecule, SMILES spelling of the same configuration). Label `True` = `@` read in the order of
+    `stereogenic_tetrahedrons[c]` with the hydrogen last — chython's documented convention, used here to *write the expected
+    SMILES by hand*, independently of the translate table."""
+    rng = ctx.rng
+    out = []
+    for kind in ('4heavy', 'implicitH', 'explicitH'):
+        subs = HAL if kind == '4heavy' else HAL[:3] + (['H'] if kind == 'explicitH' else [])
+        perms = list(itertools.permutations(range(len(subs))))
+        for perm in perms:
+            for atom_order in ('centre-first', 'centre-last', 'shuffled'):
+                nums = rng.sample(range(1, 40), len(subs) + 1)
+                c, nb = nums[0], nums[1:]
+                atoms = [(c, 'C')] + [(nb[i], subs[i]) for i in range(len(subs))]
+                if atom_order == 'centre-last':
+                    atoms = atoms[1:] + atoms[:1]
+                elif atom_order == 'shuffled':
+                    rng.shuffle(atoms)
+                bonds = [(c, nb[i], 1) if rng.random() < 0.5 else (nb[i], c, 1) for i in perm]
+                for s in (True, False):
+                    m = build(atoms, bonds)
+                    order = m.stereogenic_tetrahedrons[c]
+                    m._atoms[c]._stereo = s
+                    sym = {n: ('[H]' if x == 'H' else x) for n, x in atoms}
+                    heavy = [sym[x] for x in order]
+                    mark = '@' if s else '@@'
+                    if kind == '4heavy':
+                        smi = f'{heavy[0]}[C{mark}]({heavy[1]})({heavy[2]}){heavy[3]}'
+                    elif kind == 'implicitH':
+                        smi = f'{heavy[0]}[C{mark}H]({heavy[1]}){heavy[2]}'     # H second == H last (even move)
+                    else:
+                        smi = f'{heavy[0]}[C{mark}]({heavy[1]})({heavy[2]})[H]'
+                    out.append((f'tetra:{kind}:{"".join(map(str, perm))}:{atom_order}:{int(s)}', m, smi))
+    return out
+
+
+def tetra_spellings():
+    """every SMILES spelling of one labelled centre: neighbour permutations x mark x centre first / not first x H kinds."""
+    out = []
+    for perm in itertools.permutations(HAL):
+        for mark in ('@', '@@'):
+            a, b, c, d = perm
+            out.append(f'{a}[C{mark}]({b})({c}){d}')
+            out.append(f'[C{mark}]({a})({b})({c}){d}')
+    for perm in itertools.permutations(HAL[:3]):
+        for mark in ('@', '@@'):
+            a, b, c = perm
+            out += [f'{a}[C{mark}H]({b}){c}', f'[C{mark}H]({a})({b}){c}']
+            for hpos in range(4):   # explicit hydrogen atom at every position
+                xs = [a, b, c]
+                xs.insert(hpos, '[H]')
+                out.append(f'{xs[0]}[C{mark}]({xs[1]})({xs[2]}){xs[3]}')
+    return out
+
+
+def dbond_templates(ctx):
+    """(tag, molecule, expected SMILES): C=C / C=N with one or two substituents (heavy, implicit H, explicit H) at each end,
+    every insertion order of the bonds, every label. Label `True` = first neighbours `(n0, n1)` cis."""
+    rng = ctx.rng
+    out = []
+    ends = {'2heavy': ['F', 'Cl'], '1heavy': ['F'], 'heavy+H': ['F', 'H'], 'H+heavy': ['H', 'F']}
+    ends2 = {'2heavy': ['Br', 'I'], '1heavy': ['Br'], 'heavy+H': ['Br', 'H'], 'H+heavy': ['H', 'Br']}
+    for ka, sa in ends.items():
+        for kb, sb in ends2.items():
+            for second in ('C', 'N'):
+                if second == 'N' and len(sb) == 2:
+                    continue
+                for trial in range(3):
+                    nums = rng.sample(range(1, 40), 2 + len(sa) + len(sb))
+                    a, b = nums[0], nums[1]
+                    na, nb = nums[2:2 + len(sa)], nums[2 + len(sa):]
+                    atoms = [(a, 'C'), (b, second)] + list(zip(na, sa)) + list(zip(nb, sb))
+                    rng.shuffle(atoms)
+                    bonds = [(a, b, 2)] + [(a, x, 1) for x in na] + [(b, x, 1) for x in nb]
+                    rng.shuffle(bonds)
+                    bonds = [(x, y, o) if rng.random() < 0.5 else (y, x, o) for x, y, o in bonds]
+                    for s in (True, False):
+                        m = build(atoms, bonds)
+                        sc = m.stereogenic_cis_trans
+                        if not sc:
+                            continue
+                        (p0, p1), (n0, n1, n2, n3) = next(iter(sc.items()))
+                        m._bonds[p0][p1]._stereo = s
+                        sym = {n: ('[H]' if x == 'H' else x) for n, x in atoms}
+                        # explicit hydrogens are not in the environment: find them for the expected string
+                        def other(p, first, q):
+                            r = [x for x in m._bonds[p] if x not in (first, q)]
+                            return sym[r[0]] if r else ''
+                        o0, o1 = other(p0, n0, p1), other(p1, n1, p0)
+                        left = f'{sym[n0]}/{sym[p0]}' + (f'({o0})' if o0 else '')
+                        d = '\\' if s else '/'
+                        right = f'{sym[p1]}' + (f'({o1})' if o1 else '') + f'{d}{sym[n1]}'
+                        out.append((f'dbond:{ka}:{kb}:{second}:{trial}:{int(s)}', m, f'{left}={right}'))
+    return out
+
+
+def dbond_spellings():
+    out = []
+    for l in ('F/C(Cl)', 'F\\C(Cl)', 'Cl/C(F)', 'F/C', 'C(/F)', 'C(/F)(\\Cl)', '[H]/C(F)', 'F/C([H])'):
+        for r in ('C(/Br)I', 'C(\\Br)I', 'C(I)/Br', 'C/Br', 'C\\Br', 'N/Br', 'N\\O', 'C(/Br)[H]', 'C([H])\\Br'):
+            out.append(f'{l}={r}')
+    return out
+
+
+def exhaustive(ctx, s_env, s_to, s_from):
+    """the finite template domain through the real code (R) and the model (K). Complete in the thorough tier."""
+    from rdkit import Chem
+    from chython.utils.rdkit import to_rdkit_molecule
+    tt = tetra_templates(ctx) + dbond_templates(ctx)
+    sp = tetra_spellings() + dbond_spellings()
+    if ctx.quick:
+        tt = ctx.rng.sample(tt, min(len(tt), 160))
+        sp = ctx.rng.sample(sp, min(len(sp), 80))
+    p = Chem.SmilesParserParams()
+    p.removeHs = False
+    for tag, m, smi in tt:
+        set_coords(ctx.rng, m)
+        ctx.dist('template:' + ':'.join(tag.split(':')[:2]))
+        s_env.add(line('env', wire.mol_to_ints(m)), outcome(lambda: env_ints(m)), tag)
+        ref = Chem.MolFromSmiles(smi, p)
+        try:
+            rd, pre = real_to(m, True)
+        except Exception as e:
+            report(ctx, 'T', tag, smi, [('raises', f'to_rdkit_molecule raised {type(e).__name__}: {str(e)[:100]}')], {'template': tag})
+            continue
+        s_to.add(line('to', 1, cmol_ints(m)), 'ok ' + ' '.join(map(str, pre)), tag)
+        ctx.count(('T', tag))
+        bad = []
+        if ref is None:
+            ctx.notes.append(f'template SMILES {smi} not read by RDKit')
+        elif rdcan(rd) != rdcan(ref):
+            bad.append(('to-vs-hand-written-smiles', f'to(template) {rdcan(rd)} != {rdcan(ref)} ({smi})'))
+        try:
+            bad += judge_A(m, True)
+        except Exception as e:
+            bad.append(('raises', f'{type(e).__name__}: {str(e)[:100]}'))
+        report(ctx, 'T', tag, smi, bad, {'template': tag})
+    for smi in sp:
+        rd = Chem.MolFromSmiles(smi, p)
+        if rd is None or not rd_in_domain(rd):
+            ctx.dist('spelling:outside')
+            continue
+        ctx.dist('spelling:judged')
+        try:
+            back, pre, _ = real_from(rd)
+            s_from.add(line('from', rmol_ints(rd), nbrs_ints(rd)), 'ok ' + ' '.join(map(str, pre)), 'spelling:' + smi)
+        except Exception as e:
+            report(ctx, 'S', 'spelling', smi, [('raises', f'from_rdkit_molecule raised {type(e).__name__}')])
+            continue
+        ctx.count(('S', smi))
+        bad = []
+        try:
+            bad += judge_B(rd)
+        except Exception as e:
+            bad.append(('raises', f'{type(e).__name__}: {str(e)[:100]}'))
+        x = judge_X(smi)
+        if x:
+            bad += x
+        report(ctx, 'S', 'spelling', smi, bad)
+    if not ctx.quick:
+        ctx.exhaustive = True
 
 
 EDGE_RD = ['*C', '[99CH4]', '[Fe+5]', '[Fe-5]', 'C$C', 'C~C', '[NH3]->[Cu]', '[Cu]<-[NH3]', '[CH2]', '[CH]', '[C]', '[O]', 'C[S@](=O)CC',
@@ -956,6 +1140,8 @@ def probe(inp):
             pass
     found = []
     mol = parse(smi)
+    if inp.get('judge') not in ('A', 'B', 'X'):
+        inp = dict(inp, judge='any')
     if mol is not None and inp.get('judge', 'A') in ('A', 'any'):
         for vtag, m in variants(C, 'probe', mol):
             if any(a._implicit_hydrogens is None for a in m._atoms.values()):
